@@ -4,9 +4,11 @@ import (
 	"sort"
 	"fmt"
 	"go/ast"
+	"go/constant"
 	"go/token"
 	"go/types"
 	"math/big"
+	"strconv"
 	"strings"
 
 	"golang.org/x/tools/go/ssa"
@@ -96,10 +98,23 @@ func (x *Exec) callCommon(fr *frame, st *State, cc *ssa.CallCommon, fnv Value, a
 		}
 		conds := append([]Clause(nil), x.fc.AtCall[cname]...)
 		conds = append(conds, x.fc.AtCall[fmt.Sprintf("%s@%d", cname, nth)]...)
+		// sites may also be named by a constant string argument: NAME="text" (independent of source order)
+		var constKeys []string
+		for _, a := range cc.Args {
+			if k, isC := a.(*ssa.Const); isC && k.Value != nil && k.Value.Kind() == constant.String {
+				constKeys = append(constKeys, cname+"="+strconv.Quote(constant.StringVal(k.Value)))
+			}
+		}
+		for _, k := range constKeys {
+			conds = append(conds, x.fc.AtCall[k]...)
+		}
 		defer func() {
 			// ghost assignments attached to this call site (after its conditions were proved)
 			sets := append([]GhostBind(nil), x.fc.AtCallSets[cname]...)
 			sets = append(sets, x.fc.AtCallSets[fmt.Sprintf("%s@%d", cname, nth)]...)
+			for _, k := range constKeys {
+				sets = append(sets, x.fc.AtCallSets[k]...)
+			}
 			for _, gb := range sets {
 				g, ok := x.ghosts[gb.Name]
 				if !ok {
